@@ -143,7 +143,13 @@ fn parse_ifdata_item(
             } else {
                 let mut arrayitems = Vec::new();
                 for _ in 0..*dim {
+                    let itempos = parser.get_tokenpos();
                     arrayitems.push(parse_ifdata_item(parser, context, arraytype)?);
+                    if parser.get_tokenpos() == itempos {
+                        // the element did not consume any input: repeating it dim times would only cost time and
+                        // memory (dim comes from the A2ML text and can be as large as i32::MAX)
+                        break;
+                    }
                 }
                 GenericIfData::Array(arrayitems)
             }
